@@ -604,17 +604,36 @@ pub fn gen_operand_cell(idx: usize) -> VmSc {
 /// stack), no-ops and small nested blocks; the capacities either hold everything, or the int stack overflows
 /// part-way, or the block itself does not fit; the step limit is unbounded or falls inside the block.
 pub fn gen_giant(g: &mut Xo) -> VmSc {
-    let n = match g.below(8) {
+    gen_giant_nth(g, u64::MAX)
+}
+
+/// The `j`-th giant of a batch: every fourth one (j % 4 == 1) is an unbounded stretch of more than 2^18 instructions
+/// that all fail recoverably, whatever the seed.
+pub fn gen_giant_nth(g: &mut Xo, j: u64) -> VmSc {
+    let forced = j % 4 == 1;
+    let n = if forced {
+        [262_145usize, 300_000, 524_289, 262_144][((j / 4) % 4) as usize]
+    } else {
+        gen_giant_size(g)
+    };
+    gen_giant_of(g, n, forced)
+}
+
+fn gen_giant_size(g: &mut Xo) -> usize {
+    match g.below(8) {
         0 => 65_536,
         1 => 65_537,
         2 => 131_073,
         3 => 262_145,
         4 => 300_000,
         _ => g.log_uniform(65_536, 300_000),
-    };
+    }
+}
+
+fn gen_giant_of(g: &mut Xo, n: usize, forced: bool) -> VmSc {
     // one in four giants is a stretch of instructions that ALL fail recoverably (empty operand stacks): hundreds of
     // thousands of consecutive skips, each of which must count as a step and none of which may end the run
-    let all_fail = g.chance(1, 4);
+    let all_fail = g.chance(1, 4) || forced;
     let mut pattern: Vec<Prog> = vec![Prog::I(if all_fail { Ins::Pop(Ty::Bool) } else { Ins::PushInt(0) })];
     for _ in 0..if all_fail { 0 } else { g.urange(0, 6) } {
         pattern.push(match g.below(6) {
@@ -631,6 +650,7 @@ pub fn gen_giant(g: &mut Xo) -> VmSc {
         _ => usize::MAX,
     };
     let exec_cap = match g.below(5) {
+        _ if forced => usize::MAX,
         0 => n - 1 - g.urange(0, 2), // the block's children do not fit
         1 => n,
         2 => n + g.urange(1, 70_000),
